@@ -394,6 +394,80 @@ def rule_order1(chk, tree):
                           'gj_solve(aug, n, 1, res) and store res into d_prop[4*d_idx + i]', detail_ok='copy, augmented_matrix(.., n, 1, 4, ..), gj_solve(.., n, 1, res), store')
 
 
+def rule_targets_and_groups(chk, tree):
+    """the target points get h = max source h as a float for every point; densities of the sources are computed for ghosts too (periodic images) before they are used;
+    the neighbour structure of an SPHEvaluator is rebuilt with the domain it was constructed with"""
+    icls = M.find_class(tree, 'Interpolator')
+    cpa = M.find_func(icls, '_create_particle_array')
+    gpa = [c for c in M.calls(cpa) if M.call_name(c) == 'get_particle_array']
+    ok, why = False, 'no get_particle_array call'
+    if len(gpa) == 1:
+        kw = dict((k.arg, k.value) for k in gpa[0].keywords)
+        hv = kw.get('h')
+        if isinstance(hv, ast.Name):
+            ds = [a.value for a in ast.walk(cpa) if isinstance(a, ast.Assign) and compact(a.targets[0]) == hv.id]
+            hv = ds[-1] if ds else hv
+
+        def is_hmax(e):
+            if isinstance(e, ast.Name):
+                ds2 = [a.value for a in ast.walk(cpa) if isinstance(a, ast.Assign) and compact(a.targets[0]) == e.id]
+                return bool(ds2) and all(is_hmax(d) for d in ds2)
+            return isinstance(e, ast.Call) and M.call_name(e) == 'self._get_max_h_in_arrays'
+        why = 'h of the target points is %s' % (compact(hv) if hv is not None else None)
+        if isinstance(hv, ast.BinOp) and isinstance(hv.op, ast.Mult):
+            # hmax * ones_like(x): float scalar times an array keeps the float
+            a_, b_ = hv.left, hv.right
+            for sc, arr in ((a_, b_), (b_, a_)):
+                if is_hmax(sc) and isinstance(arr, ast.Call) and (M.call_name(arr) or '').split('.')[-1] in ('ones_like', 'ones'):
+                    ok = True
+        elif isinstance(hv, ast.Call) and (M.call_name(hv) or '').split('.')[-1] in ('full', 'full_like'):
+            kws = dict((k.arg, compact(k.value)) for k in hv.keywords)
+            nm = (M.call_name(hv) or '').split('.')[-1]
+            ok = len(hv.args) >= 2 and is_hmax(hv.args[1]) and (nm == 'full' or kws.get('dtype') in ('float', 'np.float64', 'numpy.float64', 'np.double'))
+            if not ok:
+                why += ': full_like takes the dtype of the coordinate array, so integer coordinates truncate h (to 0 for h < 1)'
+    chk.decide(ok, 'target-points', 'h-is-the-largest-source-h', node=cpa, file=INT, func='_create_particle_array', detail_bad=why,
+               detail_ok='h = max source h (float) for every target point')
+    # order1: source densities before the moments, in a group that includes ghosts
+    cae = M.find_func(icls, '_compile_acceleration_eval')
+    groups = [c for c in M.calls(cae) if M.call_name(c) == 'Group']
+    sd_groups = []
+    for gcall in groups:
+        kw = dict((k.arg, k.value) for k in gcall.keywords)
+        eqs = kw.get('equations')
+        names = set(M.call_name(c) for c in M.calls(eqs)) if eqs is not None else set()
+        if isinstance(eqs, ast.BinOp) or isinstance(eqs, ast.Name):
+            # a list built elsewhere: resolve local names
+            for n_ in ast.walk(eqs):
+                if isinstance(n_, ast.Name):
+                    for a in ast.walk(cae):
+                        if isinstance(a, ast.Assign) and compact(a.targets[0]) == n_.id:
+                            names |= set(M.call_name(c) for c in M.calls(a.value))
+        if 'SummationDensity' in names:
+            sd_groups.append((gcall, kw, names))
+    ok = bool(sd_groups) and all(isinstance(kw.get('real'), ast.Constant) and kw['real'].value is False and
+                                 not (names & set(['SPHFirstOrderApproximationPreStep', 'SPHFirstOrderApproximation'])) for g_, kw, names in sd_groups)
+    chk.decide(ok, 'order1-linear-reproduction', 'densities-cover-ghosts', node=sd_groups[0][0] if sd_groups else cae, file=INT, func='_compile_acceleration_eval',
+               detail_bad='SummationDensity of the sources must run in its own Group(real=False): in a real-only group the density of periodic images stays 0 and every target near the '
+                          'boundary divides by it (NaN)', detail_ok='Group([SummationDensity ...], real=False) of its own')
+    # SPHEvaluator: what the neighbour structure is built from is fixed at construction
+    st = M.py(SEV)
+    ecls = M.find_class(st, 'SPHEvaluator')
+    cn = M.find_func(ecls, '_create_nnps')
+    used = set(compact(n_) for n_ in ast.walk(cn) if isinstance(n_, ast.Attribute) and compact(n_).startswith('self.') and isinstance(n_.ctx, ast.Load) and
+               compact(n_).count('.') == 1) - set(['self.func_eval', 'self.nnps'])
+    bad = []
+    for m_ in [f for f in ecls.body if isinstance(f, ast.FunctionDef) and f.name not in ('__init__',)]:
+        for a in ast.walk(m_):
+            if isinstance(a, ast.Assign):
+                for tg in a.targets:
+                    if compact(tg) in used:
+                        bad.append((m_.name, compact(tg), a.lineno))
+    chk.decide(not bad and 'self.domain_manager' in used, 'rebinding', 'SPHEvaluator:nnps-inputs-fixed-at-construction', node=cn, file=SEV, func='SPHEvaluator._create_nnps',
+               detail_bad='%s re-assign what _create_nnps builds the neighbour structure from (%s): a later update_particle_arrays() silently rebuilds it without the periodic domain / '
+                          'kernel it was constructed with' % (sorted(set(b[0] for b in bad)), sorted(set(b[1] for b in bad))), detail_ok='only __init__ sets %s' % sorted(used))
+
+
 def resolve_names(fn, e):
     """local int names (i16 = 16*d_idx) substituted in an expression"""
     defs = dict((compact(a.targets[0]), a.value) for a in ast.walk(fn) if isinstance(a, ast.Assign) and isinstance(a.targets[0], ast.Name) and
@@ -434,6 +508,7 @@ def main(chk):
     rule_method_table(chk, tree)
     rule_rebinding(chk, tree)
     rule_order1(chk, tree)
+    rule_targets_and_groups(chk, tree)
     chk.note("'splash' weights with WI (destination h) while 'splash_norm' uses WJ (source h); no formula is documented in the repository to compare with - noted, not judged")
     chk.assume("'order1': the per-pair identity gives M (p_i, grad p) = b exactly for linear fields; that the (dim+1) leading block is well conditioned, and XIJ[k] = 0 for k >= dim, are assumed; "
                "min/max bounds of Shepard values are numeric facts, not decided")
